@@ -10,6 +10,7 @@ from .gea import Seq, Star, Alt, Opt
 from .interp import Events, normal_cfg, language
 from .lang import Roles
 from .origin import Origins, show, walk
+from .interp import Events
 from .paths import path_event_set, acyclic_paths, PathOriginsOv
 from .util import Vars, reaches_without
 from . import p_c01
@@ -407,3 +408,291 @@ RULES = [
     ("C05.SIGN", "sign dispatch truth tables of add/sub/mul/div/partial_cmp/eq/neg/minus; normalisation", rule_sign),
     ("C05.OPS", "operator impls delegate in order; in-place variants agree; rem = a-(a/b)*b; Euclid step of gcd", rule_ops),
 ]
+
+
+# ---------------------------------------------------------------------------------------------- LIMBS
+def rule_limbs(ctx, R):
+    """per-iteration conservation laws of the carry / borrow / schoolbook loops (A-LIN)"""
+    from . import limbs
+    from .limbs import LimbBody, conservation, innermost, B32
+    from .linear import Lin
+    fb = ctx.fb
+    U32 = (0, B32 - 1)
+
+    def ranges_carry(arr, atom):
+        return (0, 1) if arr == "V" else U32
+
+    # ---- add_core
+    L = LimbBody(fb, B + "add_core", {1: "LHS", 2: "RHS"})
+    if R.anchor(L.b is not None and L.V is not None, "add_core", "BigNum::add_core and its result vector"):
+        R.analyse(L.b.name)
+        inner = sorted(innermost(L.heads).items(), key=lambda kv: _pos(L.b, kv[0]))
+        if R.anchor(len(inner) == 2, "add_core:loops", "the two digit loops of add_core (found %d)" % len(inner)):
+            def exp0(res):
+                n = list(res["names"].values())
+                if len(n) != 1:
+                    return None
+                return Lin({"LHS[+1*%s]" % n[0]: 1, "RHS[+1*%s]" % n[0]: 1})
+
+            def exp1(res):
+                n = list(res["names"].values())
+                if len(n) != 1:
+                    return None
+                return Lin({"PHI(LHS|RHS)[+1*%s]" % n[0]: 1})
+
+            conservation(L, R, "add_core:loop0", "add_core, common digits (digit + carry*2^32 = lhs[i] + rhs[i] + carry in)", inner[0][0], inner[0][1], +1, -1, 0, exp0, ranges_carry)
+            conservation(L, R, "add_core:loop1", "add_core, remaining digits of the longer operand", inner[1][0], inner[1][1], +1, -1, 0, exp1, ranges_carry)
+        _carry_cells(L, R, "add_core")
+        _addsub_structure(L, R, "add_core")
+    # ---- sub_core
+    L = LimbBody(fb, B + "sub_core", {1: "LHS", 2: "RHS"})
+    if R.anchor(L.b is not None and L.V is not None, "sub_core", "BigNum::sub_core and its result vector"):
+        R.analyse(L.b.name)
+        inner = sorted(innermost(L.heads).items(), key=lambda kv: _pos(L.b, kv[0]))
+        if R.anchor(len(inner) == 2, "sub_core:loops", "the two digit loops of sub_core (found %d)" % len(inner)):
+            def sexp0(res):
+                n = list(res["names"].values())
+                if len(n) != 1:
+                    return None
+                return Lin({"SEL.0[+1*%s]" % n[0]: 1, "SEL.1[+1*%s]" % n[0]: -1})
+
+            def sexp1(res):
+                n = list(res["names"].values())
+                if len(n) != 1:
+                    return None
+                return Lin({"SEL.0[+1*%s]" % n[0]: 1})
+
+            conservation(L, R, "sub_core:loop0", "sub_core, common digits (digit - borrow*2^32 = a[i] - b[i] - borrow in)", inner[0][0], inner[0][1], -1, +1, 0, sexp0, ranges_carry)
+            conservation(L, R, "sub_core:loop1", "sub_core, remaining digits of the larger operand", inner[1][0], inner[1][1], -1, +1, 0, sexp1, ranges_carry)
+        _carry_cells(L, R, "sub_core")
+        _sub_selection(L, R)
+    # ---- mult_core
+    L = LimbBody(fb, B + "mult_core", {1: "LHS", 2: "RHS"})
+    if R.anchor(L.b is not None and L.V is not None, "mult_core", "BigNum::mult_core and its accumulator vector"):
+        R.analyse(L.b.name)
+        inner = sorted(innermost(L.heads).items(), key=lambda kv: _pos(L.b, kv[0]))
+        if R.anchor(len(inner) == 1, "mult_core:loops", "the inner product loop of mult_core (found %d innermost loops)" % len(inner)):
+            def mexp(res):
+                env = res["env"]
+                atoms = set()
+                for v in res["store"].values():
+                    for a in v.terms:
+                        if isinstance(a, str) and a.startswith("MUL("):
+                            atoms.add(a)
+                    for a in list(env.ranges):
+                        if isinstance(a, str) and a.startswith("MUL("):
+                            atoms.add(a)
+                prods = [a for a in atoms if "LHS[" in a and "RHS[" in a]
+                if len(prods) != 1:
+                    # an iteration that stores nothing: fine iff a factor is known to be zero on this path
+                    if not res["store"] and any(v == 0 and (k.startswith("LHS[") or k.startswith("RHS[")) for k, v in env.subst.items()):
+                        return Lin()
+                    return None
+                a = prods[0]
+                if any(v == 0 and ("(%s," % k in a or ",%s)" % k in a) for k, v in env.subst.items()):
+                    return Lin()
+                return Lin({a: 1})
+
+            def ranges_acc(arr, atom):
+                return (0, (1 << 64) - 1) if arr == "V" else U32
+
+            h, info = inner[0]
+            conservation(L, R, "mult_core:inner", "mult_core, one partial product (cell + next*2^32 grows by lhs[i]*rhs[j])", h, info, +1, -1, -1, mexp, ranges_acc)
+            # normalisation: every inner iteration leaves cell i+j below the base
+            from .limbs import iteration_paths
+            for pi, p in enumerate(iteration_paths(L, h, info)):
+                res = L.analyse_path(p, ranges_acc, True)
+                vkeys = [k for k in res["store"] if k[0] == "V"]
+                ok = False
+                if vkeys and not res["problems"]:
+                    base = min(vkeys, key=lambda k: res["idx"][k].const)
+                    from .linear import interval
+                    try:
+                        lo, hi = interval(res["store"][base], res["env"])
+                        ok = lo >= 0 and hi < B32
+                    except Exception:
+                        ok = False
+                R.check(ok, "mult_core:normalise:path%d" % pi, "mult_core: every inner iteration reduces the current accumulator cell below 2^32 (the invariant that makes the final truncating conversion exact)", L.b.blocks[h]["term"]["span"]["at"])
+        _mult_structure(L, R)
+
+
+def _pos(b, block):
+    at = b.blocks[block]["term"]["span"]["at"].rsplit(":", 2)
+    return (int(at[1]), int(at[2]))
+
+
+def _carry_cells(L, R, nm):
+    """cells above the current index only ever receive the constant 1 (so a carry/borrow cell read later is 0 or 1,
+    and cells not yet reached are still zero)"""
+    b, fb = L.b, L.fb
+    org = Origins(b, fb)
+    n = 0
+    init_ok = L.Vinit[0] == ("const", "u32", 0)
+    R.check(init_ok, nm + ":zeroed", "%s: the result vector is created zero-filled" % nm, b.span)
+    for bi, blk in enumerate(b.blocks):
+        if blk["cleanup"]:
+            continue
+        for si, s in enumerate(blk["stmts"]):
+            if s["k"] == "assign" and "deref" in s["p"]["proj"]:
+                dst = org.of_place({"l": s["p"]["l"], "proj": []}, bi, si)
+                if dst[0] == "call" and dst[1] == "core::ops::index::IndexMut::index_mut" and L.array_key(dst[2][0]) == "V":
+                    idx = dst[2][1]
+                    if idx[0] == "bin" and idx[1] == "Add" and idx[3] == ("const", "usize", 1):
+                        n += 1
+                        v = org.of_rvalue(s["r"], bi, si)
+                        R.check(v == ("const", "u32", 1), "%s:carrycell:%d" % (nm, n), "%s: the cell above the current digit only receives the constant 1 (carry/borrow flag)" % nm, s["span"]["at"])
+    R.floor(nm + ":carry_stores", n, 2, "stores of a carry/borrow into the next cell")
+
+
+def _addsub_structure(L, R, nm):
+    b, fb = L.b, L.fb
+    roles = Roles(b, fb, param_roles={1: "LHS", 2: "RHS"})
+    iters = sorted((_pos(b, bi), roles.of_operand(t["args"][0], bi)) for bi, t in b.calls() if callee_name(t["f"], fb) == "core::iter::traits::collect::IntoIterator::into_iter")
+    mn = "cmp::min([T]::len(LHS),[T]::len(RHS))"
+    want0 = "Range::Range{K0,%s}" % mn
+    ok = len(iters) == 2 and iters[0][1] == want0 and iters[1][1].startswith("Range::Range{%s," % mn) and "[T]::len(PHI(" in iters[1][1]
+    R.check(ok, nm + ":ranges", "%s: digits 0..min(len) are added pairwise, digits min(len)..len(longer) are propagated: %s" % (nm, [x[1][:70] for x in iters]), b.span)
+    vlen = roles.of_origin(L.Vinit[1])
+    R.check(vlen == "(cmp::max([T]::len(LHS),[T]::len(RHS)) Add K1)", nm + ":length", "%s: the result has max(len) + 1 limbs (room for the final carry): %s" % (nm, vlen), b.span)
+    # the longer operand is selected by comparing the lengths
+    ev = Events(b, fb, roles=roles)
+    cfg = L.cfg
+    sel = []
+    for bi, blk in enumerate(b.blocks):
+        for si, s in enumerate(blk["stmts"]):
+            if s["k"] == "assign" and not s["p"]["proj"] and b.lty(s["p"]["l"]) == "&[u32]" and s["r"]["k"] in ("use", "ref"):
+                src = roles.of_origin(roles.org.of_rvalue(s["r"], bi, si))
+                if src in ("LHS", "RHS") and len(L.vars.defs.get(s["p"]["l"], [])) == 2:
+                    from .util import dominating_edge_labels
+                    labs = [l for l in dominating_edge_labels(cfg, b, ev, bi) if "[T]::len" in l]
+                    sel.append((src, labs))
+    want = {("RHS", "LT[[T]::len(LHS),[T]::len(RHS)]=1"), ("LHS", "LT[[T]::len(LHS),[T]::len(RHS)]=0")}
+    got = {(a, l[0]) for a, l in sel if l}
+    R.check(got == want or got == {("LHS", "LT[[T]::len(RHS),[T]::len(LHS)]=1"), ("RHS", "LT[[T]::len(RHS),[T]::len(LHS)]=0")}, nm + ":longer", "%s: the operand whose remaining digits are propagated is the longer one: %s" % (nm, sorted(got)), b.span)
+
+
+def _sub_selection(L, R):
+    b, fb = L.b, L.fb
+    roles = Roles(b, fb, param_roles={1: "LHS", 2: "RHS"})
+    ev = Events(b, fb, roles=roles)
+    cfg = L.cfg
+    got = set()
+    for bi, blk in enumerate(b.blocks):
+        for si, s in enumerate(blk["stmts"]):
+            if s["k"] == "assign" and s["r"]["k"] == "agg" and s["r"]["agg"] == "tuple" and len(s["r"]["fields"]) == 3:
+                vals = tuple(roles.of_operand(f, bi, si) for f in s["r"]["fields"])
+                labs = [ev.generic_edge(gb, b.blocks[gb]["term"], bi) for gb in cfg.pred[bi]]
+                got.add((vals, tuple(l for l in labs if l)))
+    want = {(("RHS", "LHS", "K1"), ("BR[BigNum::less_core(LHS,RHS)]=1",)), (("LHS", "RHS", "K0"), ("BR[BigNum::less_core(LHS,RHS)]=0",))}
+    R.check(got == want, "sub_core:selection", "sub_core subtracts the smaller magnitude from the larger (a, b, swapped) = (rhs, lhs, true) iff |lhs| < |rhs|: %s" % sorted(got), b.span)
+    iters = sorted((_pos(b, bi), roles.of_operand(t["args"][0], bi)) for bi, t in b.calls() if callee_name(t["f"], fb) == "core::iter::traits::collect::IntoIterator::into_iter")
+    ok = len(iters) == 2 and iters[0][1].startswith("Range::Range{K0,[T]::len(PHI(") and iters[0][1].endswith(".1)}") and iters[1][1].startswith("Range::Range{[T]::len(PHI(") and iters[1][1].endswith(".0)}")
+    R.check(ok, "sub_core:ranges", "sub_core: digits 0..len(b) are subtracted pairwise, digits len(b)..len(a) only propagate the borrow: %s" % [x[1][:90] for x in iters], b.span)
+    # returns (v, swapped)
+    rets = [roles.of_origin(roles.org.of_rvalue(s["r"], bi, si)) for bi, blk in enumerate(b.blocks) for si, s in enumerate(blk["stmts"]) if s["k"] == "assign" and s["p"]["l"] == 0 and not s["p"]["proj"] and not blk["cleanup"]]
+    R.check(len(rets) == 1 and rets[0].startswith("tuple{vec::from_elem(K0,") and rets[0].endswith(".2}"), "sub_core:returns", "sub_core returns the difference and the swapped flag: %s" % [r[:60] + "..." + r[-30:] for r in rets], b.span)
+
+
+def _mult_structure(L, R):
+    b, fb = L.b, L.fb
+    roles = Roles(b, fb, param_roles={1: "LHS", 2: "RHS"})
+    iters = sorted((_pos(b, bi), roles.of_operand(t["args"][0], bi)) for bi, t in b.calls() if callee_name(t["f"], fb) == "core::iter::traits::collect::IntoIterator::into_iter")
+    ok = len(iters) >= 2 and iters[0][1] == "Range::Range{K0,[T]::len(LHS)}" and iters[1][1] == "Range::Range{K0,[T]::len(RHS)}"
+    R.check(ok, "mult_core:ranges", "mult_core: every pair (i, j) of digits is visited: %s" % [x[1][:60] for x in iters], b.span)
+    vlen = roles.of_origin(L.Vinit[1])
+    R.check(vlen in ("(([T]::len(LHS) Add [T]::len(RHS)) Add K1)", "([T]::len(LHS) Add [T]::len(RHS))"), "mult_core:length", "mult_core: the accumulator has at least len(lhs)+len(rhs) cells: %s" % vlen, b.span)
+    # skipping a whole row is allowed only when the row's digit is zero
+    ev = Events(b, fb, roles=roles)
+
+
+def rule_divless(ctx, R):
+    """bitwise quotient search of div_core and magnitude comparison of less_core"""
+    from .limbs import LimbBody, innermost, iteration_paths, B32
+    from .linear import Lin
+    from .paths import PathOriginsOv
+    fb = ctx.fb
+    # ---- less_core: whole-function language against the definition of magnitude comparison
+    b = fb.bodies.get(B + "less_core")
+    if R.anchor(b is not None, "less_core", "BigNum::less_core"):
+        R.analyse(b.name)
+        v = Vars(b)
+        o0 = Origins(b, fb)
+        r0 = Roles(b, fb, param_roles={1: "LHS", 2: "RHS"})
+        ov = {}
+        for l, ds in v.defs.items():
+            if b.lty(l) == "usize" and l in b.local_names() and len(ds) >= 2:
+                for d in ds:
+                    if d[0] == "assign":
+                        o = r0.of_origin(o0.of_rvalue(d[3]["r"], d[1], d[2]))
+                        if o == "([T]::len(LHS) Sub K1)":
+                            ov[l] = "A"
+                        if o == "([T]::len(RHS) Sub K1)":
+                            ov[l] = "B"
+        if R.anchor(sorted(ov.values()) == ["A", "B"], "less_core:cursors", "the two top-limb cursors of less_core"):
+            roles = Roles(b, fb, param_roles={1: "LHS", 2: "RHS"}, overrides=ov)
+
+            def stmt_events(bi, si, s):
+                if s["k"] == "assign" and not s["p"]["proj"] and s["p"]["l"] in ov:
+                    return "SET%s(%s)" % (ov[s["p"]["l"]], roles.of_origin(roles.org.of_rvalue(s["r"], bi, si)))
+                return NotImplemented
+
+            ev = Events(b, fb, roles=roles, stmt_events=stmt_events, extra_epsilon={"core::slice::<impl [T]>::len", "[T]::len"})
+            cfg = normal_cfg(b)
+            d = language(b, fb, cfg, 0, cfg.returns, ev, stop_at_exit=False)
+            E = "ELEM<REV(Range::Range{K0,A})>"
+
+            def skip(X, ARR):
+                return Seq(Star("LT[K0,%s]=1" % X, "EQ[K0,%s[%s]]=1" % (ARR, X), "SET%s((%s Sub K1))" % (X, X)), Alt(Seq("LT[K0,%s]=0" % X), Seq("LT[K0,%s]=1" % X, "EQ[K0,%s[%s]]=0" % (ARR, X))))
+
+            tail = Alt(
+                Seq("EQ[A,B]=0", "RET((A Lt B))"),
+                Seq("EQ[A,B]=1", "SETA((A Add K1))", "ITER(REV(Range::Range{K0,A}))", Star("EQ[LHS[%s],RHS[%s]]=1" % (E, E)), Alt(Seq("EQ[LHS[%s],RHS[%s]]=0" % (E, E), "RET((LHS[%s] Lt RHS[%s]))" % (E, E)), Seq("RET(K0)"))),
+            )
+            specs = [
+                Seq("SETA(([T]::len(LHS) Sub K1))", "SETB(([T]::len(RHS) Sub K1))", skip("A", "LHS"), skip("B", "RHS"), tail),
+                Seq("SETA(([T]::len(LHS) Sub K1))", "SETB(([T]::len(RHS) Sub K1))", skip("B", "RHS"), skip("A", "LHS"), tail),
+            ]
+            p_c01.check_lang_any(R, "less_core:definition", "magnitude comparison: ignore leading zero limbs; more significant limbs means larger; otherwise the most significant differing limb decides; equal is not less", d, specs, b.span)
+    # ---- div_core
+    L = LimbBody(fb, B + "div_core", {1: "LHS", 2: "RHS"})
+    if R.anchor(L.b is not None and L.V is not None, "div_core", "BigNum::div_core and its quotient vector"):
+        b = L.b
+        R.analyse(b.name)
+        roles = Roles(b, fb, param_roles={1: "LHS", 2: "RHS"}, overrides={L.V: "Q"})
+        vlen = Roles(b, fb, param_roles={1: "LHS", 2: "RHS"}).of_origin(L.Vinit[1])
+        R.check(vlen in ("cmp::max([T]::len(LHS),[T]::len(RHS))", "[T]::len(LHS)"), "div_core:length", "the quotient has as many limbs as the dividend can need (quotient <= dividend): %s" % vlen, b.span)
+        iters = sorted((_pos(b, bi), roles.of_operand(t["args"][0], bi)) for bi, t in b.calls() if callee_name(t["f"], fb) == "core::iter::traits::collect::IntoIterator::into_iter")
+        ok = len(iters) == 2 and iters[0][1] == "REV(Range::Range{K0,Vec::len(Q)})" and iters[1][1] == "REV(Range::Range{K0,K32})"
+        R.check(ok, "div_core:ranges", "quotient bits are tried from the most significant limb and bit downwards, all 32 bits of every limb: %s" % [x[1] for x in iters], b.span)
+        inner = sorted(innermost(L.heads).items(), key=lambda kv: _pos(b, kv[0]))
+        if R.anchor(len(inner) == 1, "div_core:inner", "bit loop of div_core"):
+            h, info = inner[0]
+            got = set()
+            U32 = (0, B32 - 1)
+            for p in iteration_paths(L, h, info):
+                res = L.analyse_path(p, lambda arr, a: U32, True)
+                if res["problems"]:
+                    got.add(("problem", res["problems"][0][1][:60]))
+                    continue
+                # branch labels on the path
+                org = PathOriginsOv(b, fb, p, overrides={L.V: ("role", "Q")})
+                r2 = Roles(b, fb, param_roles={1: "LHS", 2: "RHS"}, org=org)
+                ev = Events(b, fb, roles=r2)
+                labs = []
+                for i, bi in enumerate(p[:-1]):
+                    lab = ev.generic_edge(bi, b.blocks[bi]["term"], p[i + 1])
+                    if lab and "less_core" in lab:
+                        labs.append(lab)
+                vk = [k for k in res["store"] if k[0] == "V"]
+                if len(vk) != 1:
+                    got.add(("cells", len(vk)))
+                    continue
+                delta = res["store"][vk[0]] - Lin({"V[%s]" % res["idx"][vk[0]]: 1})
+                got.add((tuple(labs), repr(delta)))
+            names = None
+            ok = len(got) == 2 and any(l == ("BR[BigNum::less_core(LHS,BigNum::mult_core(Q,RHS))]=0",) and d.startswith("+1*BIT(") for l, d in got if isinstance(l, tuple)) and any(l == ("BR[BigNum::less_core(LHS,BigNum::mult_core(Q,RHS))]=1",) and d == "+0" for l, d in got if isinstance(l, tuple))
+            R.check(ok, "div_core:bit_search", "each step sets one quotient bit and clears it again exactly when dividend < quotient * divisor (greedy search for the largest q with q*d <= n)", b.blocks[h]["term"]["span"]["at"], sorted(map(str, got)))
+
+
+RULES.append(("C05.DIVLESS", "bitwise quotient search of div_core; magnitude comparison of less_core", rule_divless))
+RULES.append(("C05.LIMBS", "carry, borrow and partial-product loops conserve the value on every path of an iteration; normalisation; digit ranges", rule_limbs))
